@@ -3,6 +3,17 @@
 NOT_BUILT = "contracts for the functions this property depends on are not built yet (build in progress, see DESIGN.md section 9); nothing is claimed"
 
 CLAIMED = {
+    "C20": ("exact finite evaluation of the AST tables + symbolic execution with z3 (all integers) + vjp identity over an uninterpreted K_n",
+            "Proof. The module-level gamma matrices are read from the AST as exact Gaussian rationals and all Clifford / hermiticity / gamma5 "
+            "relations and all 16 Grid_gamma branches are decided by exact arithmetic (finite domain, exhaustive). epsilon_tensor and "
+            "epsilon_tensor_rank4 are executed symbolically and their postcondition (permutation sign, ValueError outside the domain) is "
+            "discharged by z3 for ALL integer arguments. The vjp lambda of kn is executed symbolically and proved equal to "
+            "-g/2 (K_{n-1}+K_{n+1}) with K uninterpreted.",
+            "DESIGN.md section 6 C20",
+            "Assumed: scipy.special.kn computes K_n; K_{-m} = K_m; the Bessel recurrence d/dx K_n = -(K_{n-1}+K_{n+1})/2 is the mathematical "
+            "derivative (DLMF 10.29); autograd's defvjp mechanism; the re-exported autograd.scipy.special functions are not examined (not decided)."),
 }
 
 NOT_APPLICABLE = {("C%02d" % i): NOT_BUILT for i in range(1, 21)}
+for _k in CLAIMED:
+    NOT_APPLICABLE.pop(_k, None)
